@@ -10,15 +10,19 @@ then the second parse sees the same words, operators and fd numbers.
 * `lex_indent` — the indentation inserted by the block printers never changes the tokens (∀ texts).
 * `lex_lines` — tokens never straddle a line break, so blocks can be read line by line.
 * `lex_words` — a blank-separated word list (simple command, `for` values) reads back as those words.
-* `lex_compound_redirs_partial` — the redirect list that `Command::Compound` / `FunctionBody` /
-  `RedirectList` write directly behind the closing word reads back as intended **provided** no
-  redirect carries an fd number and no target is a digit string (guard `GuardRs`);
-  `compound_redirs_cex` shows the full statement is false as the code stands
-  (`done> /dev/null2>& 1`); `lex_compound_redirs_repaired` proves it for every redirect list once a
-  blank is written in front of each redirect (the one-line repair), so the guard can be dropped.
-* `heredoc_indented_cex` — a here-document inside a brace group is printed with its end tag
-  indented: no line of the printed text is the tag, the document never ends.
-* `procsub_word_cex`, `for_without_in_cex`, `pipe_amp_cex` — the other recorded defects, on the model.
+* `lex_compound_redirs` — the redirect list that `Command::Compound` / `FunctionBody` /
+  `RedirectList` write behind the closing word reads back as intended for **every** well-formed
+  redirect list (fd numbers, digit targets, any length): one blank is written before each redirect
+  (after the repair of `compound_redirect_adjacent`; before it this needed a guard and
+  `done> /dev/null2>& 1` was a counter-example).
+* `lex_pipeline_sep` — the ` | ` between pipeline stages is its own token whatever the next stage
+  starts with (repair of `pipe_then_amp_redirect`).
+* `for_in_distinguished` — `for v; do` and `for v in …; do` never print alike (repair of
+  `for_without_in_prints_empty_list`).
+* `procsub_word_reads_back` — a process substitution word prints `<( … )` (repair of
+  `procsub_word_double_parens`).
+* `heredoc_indented_cex` — still open: a here-document inside a brace group is printed with its end
+  tag indented: no line of the printed text is the tag, the document never ends.
 -/
 namespace BrushVerif.C14
 open BrushVerif.Wire BrushVerif.Print
@@ -94,16 +98,9 @@ def WfRedir (r : Redir) : Prop :=
   Plain (redirTgt r) ∧
   (∀ n, redirFd r = some n → Plain n ∧ n.all isDigitC = true)
 
-/-- the guard: no fd number, target not a digit string -/
-def GuardR (r : Redir) : Prop := redirFd r = none ∧ (redirTgt r).all isDigitC = false
-
 def WfRs : Redirs → Prop
   | .nil => True
   | .cons r rs => WfRedir r ∧ WfRs rs
-
-def GuardRs : Redirs → Prop
-  | .nil => True
-  | .cons r rs => GuardR r ∧ GuardRs rs
 
 private theorem printRedir_shape (r : Redir) (h : WfRedir r) :
     printRedir r = fdStr (redirFd r) ++ (redirOp r ++ ' ' :: redirTgt r) := by
@@ -114,40 +111,6 @@ private theorem printRedir_shape (r : Redir) (h : WfRedir r) :
   | filePs _ _ _ _ => exact absurd h.1 (by simp)
   | hereDoc _ _ _ _ => exact absurd h.1 (by simp)
 
-/-- **Partial.** What `Command::Compound`, `FunctionBody` and `RedirectList` print behind the closing
-word `w` of a compound command (`done`, `}`, `fi`, `esac`, `]]`) reads back as `w` followed by the
-intended redirect tokens — if no redirect has an fd number and no target is a digit string. -/
-theorem lex_compound_redirs_partial : ∀ (rs : Redirs) (w : Str), Plain w → w.all isDigitC = false →
-    WfRs rs → GuardRs rs → lex (w ++ printRedirs rs) = .word w :: toksRedirs rs
-  | .nil, w, hw, _, _, _ => by
-    simp only [printRedirs, List.append_nil, toksRedirs, lex]
-    exact lex_word_end w hw
-  | .cons r rs, w, hw, hd, hwf, hg => by
-    obtain ⟨hr, hrs⟩ := hwf
-    obtain ⟨⟨hfd, htd⟩, hgs⟩ := hg
-    have ih := lex_compound_redirs_partial rs (redirTgt r) hr.2.2.2.1 htd hrs hgs
-    simp only [lex] at ih ⊢
-    rw [printRedirs, printRedir_shape r hr, hfd]
-    simp only [redirSep, fdStr, List.nil_append, List.append_assoc, List.cons_append]
-    rw [lex_word_op w (redirOp r) _ hw hd hr.2.1, ih]
-    simp [toksRedirs, toksRedir, hfd]
-
-/-- the guard is satisfiable by a non-trivial list: `> /dev/null >> log <<< $x` -/
-example : lex ("done".toList ++ printRedirs (.cons (.file none [('>')] "/dev/null".toList)
-      (.cons (.file none ">>".toList "log".toList) (.cons (.hereStr none "$x".toList) .nil)))) =
-    [.word "done".toList, .op [('>')], .word "/dev/null".toList, .op ">>".toList, .word "log".toList,
-     .op "<<<".toList, .word "$x".toList] := by
-  simp [printRedirs, printRedir, redirSep, fdStr]; decide
-
-/-- The full statement (no guard). -/
-def lex_compound_redirs_full : Prop :=
-  ∀ (rs : Redirs) (w : Str), Plain w → w.all isDigitC = false → WfRs rs →
-    lex (w ++ printRedirs rs) = .word w :: toksRedirs rs
-
-/-- the witness of the recorded defect: `… done >/dev/null 2>&1` -/
-def cexRedirs : Redirs :=
-  .cons (.file none [('>')] "/dev/null".toList) (.cons (.file (some ['2']) ">&".toList ['1']) .nil)
-
 private theorem plain_of_bool (w : Str) (h : (!w.isEmpty && w.all wordChar) = true) : Plain w := by
   simp only [Bool.and_eq_true, Bool.not_eq_true', List.all_eq_true] at h
   exact ⟨by intro e; subst e; simp at h, h.2⟩
@@ -156,51 +119,22 @@ private theorem opstr_of_bool (o : Str) (h : (!o.isEmpty && o.all isOpChar) = tr
   simp only [Bool.and_eq_true, Bool.not_eq_true', List.all_eq_true] at h
   exact ⟨by intro e; subst e; simp at h, h.2⟩
 
-private theorem cexRedirs_wf : WfRs cexRedirs := by
-  refine ⟨⟨trivial, ?_, ?_, ?_, ?_⟩, ⟨trivial, ?_, ?_, ?_, ?_⟩, trivial⟩
-  · exact opstr_of_bool _ (by simp [redirOp]; decide)
-  · simp [redirOp, redirFd]
-  · exact plain_of_bool _ (by simp [redirTgt]; decide)
-  · intro n h; simp [redirFd] at h
-  · exact opstr_of_bool _ (by simp [redirOp]; decide)
-  · simp [redirOp, redirFd]
-  · exact plain_of_bool _ (by simp [redirTgt]; decide)
-  · intro n h
-    simp only [redirFd, Option.some.injEq] at h
-    subst h
-    exact ⟨plain_of_bool _ (by decide), by decide⟩
-
-/-- **Counter-example** (`compound_redirect_adjacent`): brush prints `done> /dev/null2>& 1`, which
-reads as the word `/dev/null2`. -/
-theorem compound_redirs_cex : ¬ lex_compound_redirs_full := by
-  intro h
-  have := h cexRedirs "done".toList (plain_of_bool _ (by decide)) (by decide) cexRedirs_wf
-  revert this
-  simp [cexRedirs, printRedirs, printRedir, redirSep, fdStr, toksRedirs, toksRedir, redirFd, redirOp, redirTgt]
-  decide
-
-/-- the whole function as brush prints it -/
-example : printFn ['f'] (.forIn ['i'] true [['1']] (.cons (.mk 0 false (.simple .nil (some [':']) .nil) .nil) .nil false .nil))
-    cexRedirs = "f () \nfor i in 1;\ndo\n    :\ndone> /dev/null2>& 1".toList := by
-  decide
-
-/-- the repaired printer: one blank in front of every redirect -/
-def printRedirsSp : Redirs → Str
-  | .nil => []
-  | .cons r rs => ' ' :: printRedir r ++ printRedirsSp rs
-
-/-- **Repaired printer, no guard.** With a blank before each redirect every well-formed redirect list
-(fd numbers, digit targets, any length) reads back as intended, after any text that ends a token. -/
-theorem lex_compound_redirs_repaired : ∀ (rs : Redirs) (w : Str), Plain w → WfRs rs →
-    lex (w ++ printRedirsSp rs) = .word w :: toksRedirs rs
+/-- **Full strength.** What `Command::Compound`, `FunctionBody` and `RedirectList` print behind the
+closing word `w` of a compound command (`done`, `}`, `fi`, `esac`, `]]`) reads back as `w` followed
+by exactly the intended redirect tokens — for every well-formed redirect list: fd numbers, digit
+targets, any length. -/
+theorem lex_compound_redirs : ∀ (rs : Redirs) (w : Str), Plain w → WfRs rs →
+    lex (w ++ printRedirs rs) = .word w :: toksRedirs rs
   | .nil, w, hw, _ => by
-    simp only [printRedirsSp, List.append_nil, toksRedirs, lex]
+    simp only [printRedirs, List.append_nil, toksRedirs, lex]
     exact lex_word_end w hw
   | .cons r rs, w, hw, hwf => by
     obtain ⟨hr, hrs⟩ := hwf
-    have ih := lex_compound_redirs_repaired rs (redirTgt r) hr.2.2.2.1 hrs
+    have ih := lex_compound_redirs rs (redirTgt r) hr.2.2.2.1 hrs
     simp only [lex] at ih ⊢
-    rw [printRedirsSp, List.cons_append, lex_word_blank w _ hw, printRedir_shape r hr]
+    rw [printRedirs]
+    simp only [redirSep, List.cons_append, List.nil_append, List.append_assoc]
+    rw [lex_word_blank w _ hw, printRedir_shape r hr]
     cases hfd : redirFd r with
     | none =>
       simp only [fdStr, List.nil_append, List.append_assoc, List.cons_append]
@@ -217,11 +151,93 @@ theorem lex_compound_redirs_repaired : ∀ (rs : Redirs) (w : Str), Plain w → 
       rw [lex_ionum_op n (redirOp r) _ hn hnd hr.2.1 hh, ih]
       simp [toksRedirs, toksRedir, hfd]
 
-example : lex ("done".toList ++ printRedirsSp cexRedirs) =
-    [.word "done".toList, .op [('>')], .word "/dev/null".toList, .ionum ['2'], .op ">&".toList, .word ['1']] :=
-  lex_compound_redirs_repaired cexRedirs _ (plain_of_bool _ (by decide)) cexRedirs_wf
+/-- the former counter-example: `… done >/dev/null 2>&1` -/
+def cexRedirs : Redirs :=
+  .cons (.file none [('>')] "/dev/null".toList) (.cons (.file (some ['2']) ">&".toList ['1']) .nil)
 
-/-! ## the other recorded defects, on the model -/
+private theorem cexRedirs_wf : WfRs cexRedirs := by
+  refine ⟨⟨trivial, ?_, ?_, ?_, ?_⟩, ⟨trivial, ?_, ?_, ?_, ?_⟩, trivial⟩
+  · exact opstr_of_bool _ (by simp [redirOp]; decide)
+  · simp [redirOp, redirFd]
+  · exact plain_of_bool _ (by simp [redirTgt]; decide)
+  · intro n h; simp [redirFd] at h
+  · exact opstr_of_bool _ (by simp [redirOp]; decide)
+  · simp [redirOp, redirFd]
+  · exact plain_of_bool _ (by simp [redirTgt]; decide)
+  · intro n h
+    simp only [redirFd, Option.some.injEq] at h
+    subst h
+    exact ⟨plain_of_bool _ (by decide), by decide⟩
+
+/-- non-vacuity, and the old witness now reads back as intended -/
+example : lex ("done".toList ++ printRedirs cexRedirs) =
+    [.word "done".toList, .op [('>')], .word "/dev/null".toList, .ionum ['2'], .op ">&".toList, .word ['1']] :=
+  lex_compound_redirs cexRedirs _ (plain_of_bool _ (by decide)) cexRedirs_wf
+
+/-- the whole function as brush prints it -/
+example : printFn ['f'] (.forIn ['i'] true [['1']] (.cons (.mk 0 false (.simple .nil (some [':']) .nil) .nil) .nil false .nil))
+    cexRedirs = "f () \nfor i in 1;\ndo\n    :\ndone > /dev/null 2>& 1".toList := by
+  decide
+
+/-! ## pipelines, `for`, process substitution words -/
+
+/-- Tokens never straddle a blank. -/
+theorem lex_blank_split (a b : Str) : lex (a ++ ' ' :: b) = lex a ++ lex b :=
+  lexGo_blank_split a false [] b
+
+/-- The ` | ` that `Pipeline::fmt` writes between two stages is a token of its own, whatever text
+the stages are (in particular a stage starting with `&>`). -/
+theorem lex_pipeline_sep (a t : Str) : lex (a ++ " | ".toList ++ t) = lex a ++ .op ['|'] :: lex t := by
+  have h : a ++ " | ".toList ++ t = a ++ ' ' :: (['|'] ++ ' ' :: t) := by simp
+  rw [h, lex_blank_split, lex_blank_split]
+  have : lex ['|'] = [.op ['|']] := by decide
+  rw [this]; rfl
+
+/-- a stage that starts with `&>` stays apart from the `|` in front of it -/
+example :
+    lex (printPipeline (.mk 0 false (.simple .nil (some ['a']) .nil)
+      (.cons (.simple (.cons (.redir (.outErr false ['o'])) .nil) (some ['p']) .nil) .nil))) =
+    [.word ['a'], .op ['|'], .op "&>".toList, .word ['o'], .word ['p']] := by
+  decide
+
+/-- `for v; do` (iterate over the positional parameters) and `for v in …; do` never print alike. -/
+theorem for_in_distinguished (v : Str) (ws : List Str) (body body' : Items) :
+    printCompound (.forIn v false [] body) ≠ printCompound (.forIn v true ws body') := by
+  intro h
+  have h' : "for ".toList ++ v ++ ([] : Str) ++ ";\n".toList ++
+        ("do\n".toList ++ indent (printItems body) ++ "\ndone".toList) =
+      "for ".toList ++ v ++ (" in ".toList ++ joinWords ws) ++ ";\n".toList ++
+        ("do\n".toList ++ indent (printItems body') ++ "\ndone".toList) := h
+  simp only [List.append_assoc, List.nil_append] at h'
+  have h2 := List.append_cancel_left (List.append_cancel_left h')
+  simp at h2
+
+example : printCompound (.forIn ['i'] false [] .nil) = "for i;\ndo\n\ndone".toList := by decide
+
+/-- A process substitution word `<( list )` / `>( list )` reads back as the opening operator, the
+tokens of the list, and one closing parenthesis — whatever the list is. -/
+theorem procsub_word_tokens (dir t : Str) (hd : OpStr dir) :
+    lex (dir ++ "( ".toList ++ t ++ " )".toList) = .op (dir ++ ['(']) :: (lex t ++ [.op [')']]) := by
+  have h : dir ++ "( ".toList ++ t ++ " )".toList = (dir ++ ['(']) ++ ' ' :: (t ++ ' ' :: [')']) := by simp
+  have ho : OpStr (dir ++ ['(']) := ⟨by simp, by
+    intro c hc
+    rcases List.mem_append.mp hc with h | h
+    · exact hd.2 c h
+    · simp at h; subst h; decide⟩
+  rw [h]
+  simp only [lex]
+  rw [lex_op_blank _ _ ho, lexGo_blank_split]
+  have : lexGo false [] [')'] = [.op [')']] := by decide
+  rw [this]
+
+/-- `cat <(echo)` is printed `cat <( echo )` and reads back as a process substitution of `echo`. -/
+theorem procsub_word_reads_back :
+    lex (printCmd (.simple .nil (some "cat".toList) (.cons (.procSub ['<']
+      (.cons (.mk 0 false (.simple .nil (some "echo".toList) .nil) .nil) .nil false .nil)) .nil))) =
+    [.word "cat".toList, .op "<(".toList, .word "echo".toList, .op ")".toList] := by
+  decide
+
+/-! ## the here-document defect (still open), on the model -/
 
 /-- `f() { cat <<E … E; }`: the end tag is printed indented, so no line of the text is the tag. -/
 theorem heredoc_indented_cex :
@@ -229,26 +245,6 @@ theorem heredoc_indented_cex :
       (.cons (.redir (.hereDoc none false ['E'] "hi\n".toList)) .nil)) .nil) .nil false .nil
     (['E'] ∈ splitOnChar '\n' (printFn ['f'] (.sub body) .nil)) ∧
     ¬ (['E'] ∈ splitOnChar '\n' (printFn ['f'] (.brace body) .nil)) := by
-  decide
-
-/-- `cat <(echo)` is printed `cat <(( echo ))`: the reader sees the run `<((`, not `<(`. -/
-theorem procsub_word_cex :
-    lex (printCmd (.simple .nil (some "cat".toList) (.cons (.procSub ['<']
-      (.cons (.mk 0 false (.simple .nil (some "echo".toList) .nil) .nil) .nil false .nil)) .nil))) =
-    [.word "cat".toList, .op "<((".toList, .word "echo".toList, .op "))".toList] := by
-  simp [printCmd, printSItems, printSItem, printItems, printPipeline, printCmds, printAOs, joinSp]
-  decide
-
-/-- `for i; do` and `for i in ; do` print the same text: the printer is not injective. -/
-theorem for_without_in_cex (v : Str) (body : Items) :
-    printCompound (.forIn v false [] body) = printCompound (.forIn v true [] body) := rfl
-
-/-- a stage that starts with `&>` is glued to the `|` in front of it -/
-theorem pipe_amp_cex :
-    lex (printPipeline (.mk 0 false (.simple .nil (some ['a']) .nil)
-      (.cons (.simple (.cons (.redir (.outErr false ['o'])) .nil) (some ['p']) .nil) .nil))) =
-    [.word ['a'], .op "|&>".toList, .word ['o'], .word ['p']] := by
-  simp [printPipeline, printCmd, printCmds, printSItems, printSItem, printRedir, joinSp]
   decide
 
 end BrushVerif.C14
